@@ -7,7 +7,7 @@
      c06_wf_no_placeholder     wf_block false false b = true,  In i (compile_ctl b)
      c06_no_fallthrough        o_cond orc tr0 g = true,  exec_block orc fuel body (EvCond g :: tr0) = Some (Normal, tr')
      c06_no_fallthrough_tagged o_tag orc tr0 k = g,      exec_block orc fuel body (EvTag k :: tr0) = Some (Normal, tr')
-     c06_default_position      none
+     c06_default_entered       no_match orc tagv cs tr1 = Some tr2,  exec_block orc fuel dflt tr2 = Some (Normal, tr')
    All witnesses below use a history-dependent oracle, a non-empty initial history, non-junk slots. *)
 From Coq Require Import ZArith List Bool Lia.
 From GV Require Import GoSpec.GoCtl Model.Ctl Proofs.C06_base Proofs.C06_ctl Proofs.C06_main Proofs.C06_wf Props.C06.
@@ -452,20 +452,49 @@ Proof.
 Qed.
 
 (* =========================================================================================== *)
-(* (6) c06_default_position: no premises.  Instance; and the reason it holds: neither `compile` nor *)
-(*     `exec` looks at dpos at all (both match it with `_`), so both halves are by reflexivity.     *)
+(* (6) c06_default_entered (replaces c06_default_position, which held by reflexivity: neither     *)
+(*     `compile` nor `exec` looks at dpos -- remark_c06_dpos_dead_field below).                   *)
+(*     Premises: no_match ... = Some tr2, exec_block orc fuel dflt tr2 = Some (Normal, tr').      *)
 (* =========================================================================================== *)
-Lemma nv_c06_default_position :
-  compile 3 (Switch (Some 4) cs5 0 dflt5) = compile 3 (Switch (Some 4) cs5 2 dflt5) /\
-  exec horc 30 (Switch (Some 4) cs5 0 dflt5) tr0 = exec horc 30 (Switch (Some 4) cs5 2 dflt5) tr0 /\
-  exec horc 30 (Switch (Some 4) cs5 0 dflt5) tr0 = Some (Normal, [EvEmit 400; EvTag 4; EvCond 77; EvEmit 5]).
+(* tagged switch, tag value o_tag horc tr0 4 = 3 matches none of 30, 31, 32: the default runs, written first
+   (dpos 0) or last (dpos 2); tagless switch under orc5 with the guard c(3) false from this history on (it has 14 events) *)
+Definition cs6 : cases := css [(3, [3], blk [Emit 300; Break]); (3, [], blk [Emit 301])].
+Lemma nv_c06_default_entered :
+  no_match horc (Some (o_tag horc tr0 4)) cs5 (EvTag 4 :: tr0) = Some (EvTag 4 :: tr0) /\
+  (exists mf, run horc mf (compile_ctl (BCons (Switch (Some 4) cs5 0 dflt5) BNil)) (mkCfg 0 tr0 [] s0)
+              = Finished [EvEmit 400; EvTag 4; EvCond 77; EvEmit 5] []) /\
+  (exists mf, run horc mf (compile_ctl (BCons (Switch (Some 4) cs5 2 dflt5) BNil)) (mkCfg 0 tr0 [] s0)
+              = Finished [EvEmit 400; EvTag 4; EvCond 77; EvEmit 5] []) /\
+  run horc 100 (compile_ctl (BCons (Switch (Some 4) cs5 2 dflt5) BNil)) (mkCfg 0 tr0 [] s0)
+    = Finished [EvEmit 400; EvTag 4; EvCond 77; EvEmit 5] [] /\
+  (* tagless: three guards are evaluated (and recorded) before the default is entered *)
+  no_match orc5 None cs6 (repeat (EvEmit 0) 12 ++ tr0) = Some ([EvCond 3; EvCond 3; EvCond 3] ++ repeat (EvEmit 0) 12 ++ tr0) /\
+  (exists mf, run orc5 mf (compile_ctl (BCons (Switch None cs6 1 dflt5) BNil)) (mkCfg 0 (repeat (EvEmit 0) 12 ++ tr0) [] s0)
+              = Finished (EvEmit 400 :: [EvCond 3; EvCond 3; EvCond 3] ++ repeat (EvEmit 0) 12 ++ tr0) []) /\
+  (* the premise fails as soon as a guard holds *)
+  no_match orc5 None cs5 tr0 = None.
 Proof.
-  destruct (c06_default_position horc (Some 4) cs5 0%nat 2%nat dflt5) as [A B].
-  split; [apply A|]. split; [apply B|]. vm_compute; reflexivity.
+  assert (N : no_match horc (option_map (o_tag horc tr0) (Some 4)) cs5 (EvTag 4 :: tr0) = Some (EvTag 4 :: tr0))
+    by (vm_compute; reflexivity).
+  assert (E : exec_block horc 5 dflt5 (EvTag 4 :: tr0) = Some (Normal, [EvEmit 400; EvTag 4; EvCond 77; EvEmit 5]))
+    by (vm_compute; reflexivity).
+  set (h := (repeat (EvEmit 0) 12 ++ tr0)%list).
+  assert (N6 : no_match orc5 (option_map (o_tag orc5 h) None) cs6 h = Some ([EvCond 3; EvCond 3; EvCond 3] ++ h)%list)
+    by (vm_compute; reflexivity).
+  assert (E6 : exec_block orc5 5 dflt5 ([EvCond 3; EvCond 3; EvCond 3] ++ h)%list
+               = Some (Normal, EvEmit 400 :: [EvCond 3; EvCond 3; EvCond 3] ++ h)%list) by (vm_compute; reflexivity).
+  split; [exact N|].
+  split; [exact (c06_default_entered horc (Some 4) cs5 0%nat dflt5 5 tr0 s0 _ _ N E)|].
+  split; [exact (c06_default_entered horc (Some 4) cs5 2%nat dflt5 5 tr0 s0 _ _ N E)|].
+  split; [vm_compute; reflexivity|].
+  split; [exact N6|].
+  split; [exact (c06_default_entered orc5 None cs6 1%nat dflt5 5 h s0 _ _ N6 E6)|].
+  vm_compute; reflexivity.
 Qed.
 
-(* triviality: the statement is a definitional identity of the model (dpos is a dead field) *)
-Lemma problem_c06_default_position : forall (orc : oracle) tag cs d1 d2 dflt,
+(* dpos is a dead field of the model: both equations hold by reflexivity, which is why they are a comment
+   (modelling assumption) in Props/C06.v and not a theorem *)
+Lemma remark_c06_dpos_dead_field : forall (orc : oracle) tag cs d1 d2 dflt,
   (fun L => compile L (Switch tag cs d1 dflt)) = (fun L => compile L (Switch tag cs d2 dflt)) /\
   (forall f tr, exec orc (S f) (Switch tag cs d1 dflt) tr = exec orc (S f) (Switch tag cs d2 dflt) tr).
 Proof. intros; split; reflexivity. Qed.
@@ -474,3 +503,4 @@ Print Assumptions nv_c06_skeleton_wf.
 Print Assumptions nv_c06_statement_brk.
 Print Assumptions nv_c06_rewrite.
 Print Assumptions nv_c06_no_fallthrough.
+Print Assumptions nv_c06_default_entered.
